@@ -150,4 +150,4 @@ def run_impl(case):
 def spec(case, mos, io):
     if case["dom"] == "hashseed":
         return exprprop.check_hashseed(case, io)
-    return exprprop.check_determinism(case, io)
+    return exprprop.check_determinism(case, io, mos)
